@@ -269,6 +269,10 @@ func GetProjectList(context db.DB) ([]*Project, error) {
 			common.DealWithErr(iterator.Error())
 			break
 		}
+		// entries deleted by a rollback are still listed by the iterator, with an empty value
+		if len(iterator.Value()) == 0 {
+			continue
+		}
 		projectList = append(projectList, parseProject(iterator.Value()))
 	}
 
